@@ -1346,14 +1346,13 @@ def check_inplace(ctx, rep, rule='C11.W', only=None):
             # itself, writes the value where it lives and notifies the parameters it is derived from; `fire_parameter_changed()` on the handle alone does not.
             abstract_slot = False
             if self_attr(owner) is not None and p is not None:
-                # an attribute the constructor declares as AbstractParameter (any kind: a view, a concatenation, a transformed parameter) is no better known to the class
-                # than a parameter handed to a function
+                # an attribute for which the class ITSELF builds a derived kind (`self.x = CatParameter(…)` when it is given a list) is known to the class not to be plain:
+                # the getter of that kind returns a copy / cache, only its setter writes the value where it lives
                 for b_ in p.body:
                     if isinstance(b_, ast.FunctionDef) and b_.name == '__init__':
-                        ann_ = {a_.arg: ast.unparse(a_.annotation) for a_ in b_.args.args + b_.args.kwonlyargs if a_.annotation is not None}
                         for a2_ in ast.walk(b_):
-                            if isinstance(a2_, ast.Assign) and any(self_attr(t_) == self_attr(owner) for t_ in a2_.targets) and isinstance(a2_.value, ast.Name) \
-                                    and 'AbstractParameter' in ann_.get(a2_.value.id, ''):
+                            if isinstance(a2_, ast.Assign) and any(self_attr(t_) == self_attr(owner) for t_ in a2_.targets) and isinstance(a2_.value, ast.Call) \
+                                    and (dotted_name(a2_.value.func) or '').split('.')[-1] in ('CatParameter', 'ViewParameter', 'TransformedParameter'):
                                 abstract_slot = True
             if rule == 'C11.W' and m.name != 'torchtree.core.parameter' and (self_attr(owner) is None or abstract_slot) or (rule == 'C11.W' and m.name == '<example>'):
                 local_plain = isinstance(owner, ast.Name) and any(
